@@ -194,8 +194,10 @@ func (l *leader) addReplication(n Node) {
 	}
 
 	l.wg.Add(1)
+	verifReplRunning(l.Raft, 1)
 	go func() {
 		defer l.wg.Done()
+		defer verifReplRunning(l.Raft, -1)
 		repl.runLoop(req)
 		if trace {
 			println(repl, "repl.End")
